@@ -273,6 +273,13 @@ pub fn build_shape(s: &Shape) -> Built {
     };
     let value_ix: Vec<usize> = value_rel.iter().map(|r| r + offset).collect();
     let leaf_items: Vec<usize> = (offset..offset + occ_items.len()).collect();
+    // `fallback_to_usage` is about lines with no arguments at all: on a line that has other
+    // items (offset > 0: something stands in front of the occurrence) it changes nothing, an
+    // invalid value is still an error
+    let mut level = level;
+    if offset > 0 && s.invalid_ix % 3 == 0 {
+        level.info.fallback_to_usage = true;
+    }
     Built {
         level,
         argv,
